@@ -50,6 +50,9 @@ struct Respond {
 
 struct RespondStream {
     tx: SendStream<Bytes>,
+    /// END_STREAM is already sent: nothing is left to flush, and the stream will never
+    /// get send capacity again
+    eof_sent: bool,
     id: log_utils::IdChain<u64>,
 }
 
@@ -292,7 +295,11 @@ impl http_codec::PendingRespond for Respond {
             .map_err(h2_to_io_error)?;
 
         log_id!(trace, self.id, "H2 response sent successfully");
-        Ok(Box::new(RespondStream { tx, id: self.id }))
+        Ok(Box::new(RespondStream {
+            tx,
+            eof_sent: eof,
+            id: self.id,
+        }))
     }
 }
 
@@ -353,7 +360,9 @@ impl pipe::Sink for RespondStream {
         log_id!(trace, self.id, "H2 stream sending EOF");
         self.tx
             .send_data(Bytes::new(), true)
-            .map_err(h2_to_io_error)
+            .map_err(h2_to_io_error)?;
+        self.eof_sent = true;
+        Ok(())
     }
 
     async fn wait_writable(&mut self) -> io::Result<()> {
@@ -362,6 +371,13 @@ impl pipe::Sink for RespondStream {
             stream: &mut self.tx,
         }
         .await
+    }
+
+    async fn flush(&mut self) -> io::Result<()> {
+        if self.eof_sent {
+            return Ok(());
+        }
+        self.wait_writable().await
     }
 }
 
